@@ -408,6 +408,9 @@ NODE_SNIPPETS = {
     'call_on_call': 'trim()()', 'call_on_sub': 'orders[0]()', 'call_on_const': '"x"()', 'deep_attr': 'txn.amount.real.imag', 'str_mul': '"a" * 20000',
     'big_repeat': '[r for r in orders] * 3', 'chained_methods': 'description.lower().upper().strip().replace("a", "b")', 'format_call': '"{0.__class__}".format(description)',
     'percent_format': '"%s" % description', 'percent_attr': '"%(amount)s" % orders[0]',
+    # literals the evaluator converts while comparing (ISO date strings, numbers as text): the parsed expression must stay as written
+    'date_compare': 'date >= "2024-01-01"', 'date_compare_rev': '"2024-01-01" <= date', 'date_eq': 'txn.date == "2024-03-05"', 'date_chain': '"2024-01-01" <= date <= "2024-12-31"',
+    'row_date_compare': '[r for r in orders if r.date > "2024-01-01"]', 'date_in': 'date in ["2024-03-05"]', 'date_bad': 'date > "not-a-date"', 'month_compare': 'month == "3"',
 }
 for _name in dir(ast):
     _cls = getattr(ast, _name)
